@@ -34,6 +34,7 @@ StrVal(tok) ==
     [] tok = "'ab'" -> <<97, 98>> [] tok = "'male'" -> <<109, 97, 108, 101>>
     [] tok = "'a  b'" -> <<97, 32, 32, 98>> [] tok = "'x // y'" -> <<120, 32, 47, 47, 32, 121>>
     [] tok = "'/* z */'" -> <<47, 42, 32, 122, 32, 42, 47>> [] tok = "' b '" -> <<32, 98, 32>>
+    [] tok = "'a b'" -> <<97, 32, 98>>
 
 Opaque(n) == [t |-> "opaque", n |-> n]
 
@@ -422,7 +423,8 @@ MiscTrees == <<
   Bin("+", Idx(PRanks, Lit("0")), Idx(PRanks, Lit("1"))), Bin("<", Idx(PRanks, Lit("0")), Idx(PRanks, Lit("1"))),
   (* string literals that contain what would be white space or a comment between tokens: the renderings and every gap *)
   (* decoration must leave the inside of the quotes alone                                                             *)
-  Lit("'a  b'"), Lit("'x // y'"), Lit("'/* z */'"), Lit("' b '"),
+  Lit("'a  b'"), Lit("'x // y'"), Lit("'/* z */'"), Lit("' b '"), Lit("'a b'"), Bin("=", Lit("'a  b'"), Lit("'a b'")),
+  Inv(Lit("'a b'"), Fn("contains", <<Lit("' b '")>>)), Bin("&", Lit("'a b'"), Lit("'x // y'")),
   Bin("&", Lit("'a  b'"), Lit("'x // y'")), Bin("&", Lit("'/* z */'"), Lit("' b '")), Bin("=", Lit("'a  b'"), Lit("'ab'")),
   Inv(Lit("'a  b'"), Fn("contains", <<Lit("' b '")>>)), Inv(Lit("'x // y'"), Fn("contains", <<Lit("'/* z */'")>>)),
   Inv(Lit("'/* z */'"), Fn("contains", <<Lit("'b'")>>)), Bin("and", Bin("=", Lit("'x // y'"), Lit("'x // y'")), Lit("true")),
